@@ -23,6 +23,7 @@ RULE = (
     "products, concatenation, shared pass-through cotangents; fan-out by drawing sources with replacement) against the full "
     "Jacobian of an independent dual-number forward sweep on raw NumPy: J^T g for two cotangents, the same VJP function called "
     "again, and J v in forward mode, tolerance 1e-10 * max|J| * size."
+    ' Later additions: array programs also check the derivative of the backward pass at a zero cotangent (make_jvp_reversemode) and forward mode through the backward pass against the dual reference differentiated numerically; statements wherec (a value as the condition of where and as an operand), widx / whole-array index operations, textend (a sequence argument extended by earlier values); programs whose reference run decides a branch or loop count within 1e-7 of its threshold are rejected.'
 )
 
 LOG = []
